@@ -29,8 +29,8 @@ PROBES = {
 def gen_history(rng, n):
     h = []
     for _ in range(n):
-        k = rng.choices(["construct", "algebra", "member", "detect", "infer", "cast", "frame", "create_type", "sampled", "list", "long", "edit"],
-                        [2, 2, 3, 3, 4, 3, 2, 1, 1, 1, 1, 2])[0]
+        k = rng.choices(["construct", "algebra", "member", "detect", "infer", "cast", "frame", "create_type", "sampled", "list", "long", "edit", "numpy", "pylist"],
+                        [2, 2, 3, 3, 4, 3, 2, 1, 1, 1, 1, 2, 4, 2])[0]
         ts = rng.choice(["standard", "complete", "geometry"])
         op = {"op": k, "ts": ts}
         if k == "algebra":
@@ -41,6 +41,11 @@ def gen_history(rng, n):
             op["recipe"] = G.gen_column(rng)
         if k in ("detect", "infer", "cast"):
             op["recipe"] = G.gen_column(rng)
+        if k in ("numpy", "pylist"):
+            pool = rng.choice([[1.0, 2.0, float("inf")], [float("-inf"), 1.5], [float("nan"), float("inf"), 3.0], [1.0, 2.0], [1.5, float("nan")],
+                               [1, 2, 3], ["1.5", "2"], ["a", "b"], [True, False], ["1+0j", "2+0j"], ["inf", "1"], [0.0, -0.0], [1e308, -1e308]])
+            op["vals"] = pool
+            op["dtype"] = "auto" if k == "numpy" and rng.random() < 0.7 else "object"
         if k == "edit":
             op["kind"] = rng.choice(["list", "numpy", "series", "frame"])
         if k == "long":
@@ -75,6 +80,21 @@ def run(tier, seed):
     rng = rng_for(seed, "history")
     nproc = 8 if tier == "quick" else 48
     jobs = [({"history": [], "probes": PROBES}, 0)]
+    # one fixed history that exercises every kind of call once, with the inputs that matter (numpy floats with inf / nan,
+    # in-place edits of each container, long columns), under two hash seeds
+    fixed = [{"op": "construct", "ts": "complete"},
+             {"op": "numpy", "ts": "standard", "vals": [1.0, 2.0, float("inf")], "dtype": "auto"},
+             {"op": "numpy", "ts": "standard", "vals": [float("nan"), float("-inf"), 3.0], "dtype": "auto"},
+             {"op": "numpy", "ts": "standard", "vals": ["1.5", "inf"], "dtype": "object"},
+             {"op": "numpy", "ts": "standard", "vals": [1.0, 2.0], "dtype": "auto"},
+             {"op": "pylist", "ts": "complete", "vals": [1.0, float("inf")]},
+             {"op": "pylist", "ts": "complete", "vals": ["1.5", "2"]},
+             {"op": "edit", "ts": "complete", "kind": "list"}, {"op": "edit", "ts": "standard", "kind": "numpy"},
+             {"op": "edit", "ts": "complete", "kind": "series"}, {"op": "edit", "ts": "complete", "kind": "frame"},
+             {"op": "algebra", "ts": "standard", "type": "Date", "kind": "add"}, {"op": "create_type", "ts": "standard"},
+             {"op": "sampled", "ts": "complete"}, {"op": "list", "ts": "complete"}, {"op": "long", "ts": "complete", "pos": [3, 700, 1400]}]
+    jobs.append(({"history": fixed, "probes": PROBES}, 1))
+    jobs.append(({"history": list(reversed(fixed)), "probes": PROBES}, "random"))
     for i in range(nproc):
         jobs.append(({"history": gen_history(rng, rng.choice([3, 8, 15])), "probes": PROBES}, rng.choice([0, 1, 2, 3, "random"])))
     with ThreadPoolExecutor(max_workers=16) as ex:
